@@ -22,6 +22,7 @@ struct MPool {   // one shared pool (possibly several allocator objects refer to
   char* last = nullptr; size_t last_aligned = 0;
   bool user_buffer = false;
   uint32_t next_tag = 1;
+  uint32_t max_base_id = 0;   // newest base allocation the model knows about
 };
 struct MAlloc { int pool = -1; size_t policy_min = 0; };
 
@@ -113,6 +114,24 @@ struct PoolExec {
   // The statement does not forbid trying again after the base allocator refused a chunk. If a block comes back although the
   // injected failure fired, the chunk it lies in is taken from the ledger of base allocations (capacity = what was really
   // obtained minus the header) and every other clause - inside that chunk, disjoint, Size/Capacity - is judged as usual.
+  // Chunk capacities are not a matter of the statement ("lies wholly inside one chunk", "Size/Capacity account for what was
+  // handed out"): whenever a block lies in a base allocation the model has not seen yet, the model's newest chunk takes the
+  // capacity that was REALLY obtained (base block size minus header) instead of the one predicted from the chunk policy.
+  static uint32_t newest_base_id() {
+    std::vector<simmem::Block> live; simmem::live_blocks(simmem::SIMBASE, live);
+    uint32_t m = 0; for (auto& b : live) if (b.id > m) m = b.id;
+    return m;
+  }
+  void adopt_actual_chunk(MPool& mp, char* p, size_t n, bool predicted) {
+    std::vector<simmem::Block> live; simmem::live_blocks(simmem::SIMBASE, live);
+    const simmem::Block* best = nullptr;
+    for (auto& b : live) if (p >= b.ptr + kHdr && p + al8(n) <= b.ptr + b.size && (!best || b.id > best->id)) best = &b;
+    if (!best || best->id <= mp.max_base_id) return;   // nothing new (or nowhere: check_block_new reports that)
+    mp.max_base_id = best->id;
+    size_t cap = best->size - kHdr;
+    if (predicted) { if (mp.chunks[0].cap != cap) probe("chunk_capacity_differs_from_policy_model"); mp.chunks[0].cap = cap; }
+    else { mp.chunks.insert(mp.chunks.begin(), MChunk{cap, 0}); probe("new_chunk_not_predicted_by_model"); }
+  }
   size_t retried_chunk_cap(char* p, size_t n) {
     std::vector<simmem::Block> live; simmem::live_blocks(simmem::SIMBASE, live);
     const simmem::Block* best = nullptr;
@@ -143,6 +162,7 @@ struct PoolExec {
     }
     if (!p) violate("model", site("null"), "Malloc returned null without an allocation failure");
     if (needc) { mp.chunks.insert(mp.chunks.begin(), MChunk{newcap, 0}); probe("new_chunk"); }
+    adopt_actual_chunk(mp, p, n, needc);
     check_block_new(mp, p, n, "Malloc");
     mp.chunks[0].size += asz;
     mp.last = p; mp.last_aligned = asz;
@@ -175,6 +195,7 @@ struct PoolExec {
         mp.user_buffer = true;
         probe(mis ? "user_buffer_misaligned" : "user_buffer");
       }
+      mp.max_base_id = newest_base_id();
       pools.push_back(mp);
       ma[a].pool = (int)pools.size() - 1; ma[a].policy_min = cs;
       ob = "new"; check_counters(a);
@@ -223,6 +244,7 @@ struct PoolExec {
         if (n == 0) { if (p) violate("model", site("zero"), "zero-size request returned a non-null block"); ob = "r0"; return true; }
         if (!p) violate("model", site("null"), "Realloc(nullptr) returned null without an allocation failure");
         if (needc) mp.chunks.insert(mp.chunks.begin(), MChunk{newcap, 0});
+        adopt_actual_chunk(mp, p, n, needc);
         check_block_new(mp, p, n, "Realloc(nullptr)");
         mp.chunks[0].size += asz; mp.last = p; mp.last_aligned = asz;
         MBlock mb{p, n, mp.next_tag++, false, al8(n)}; paint(p, n, mb.tag); mp.blocks.push_back(mb);
@@ -268,6 +290,7 @@ struct PoolExec {
       } else {
         if (p == old.p) violate("overlap", site("inplace_without_room"), "Realloc grew a block in place although it was not the most recent allocation or the chunk had no room");
         if (needc) { mp.chunks.insert(mp.chunks.begin(), MChunk{newcap, 0}); probe("new_chunk"); }
+        adopt_actual_chunk(mp, p, n, needc);
         mp.blocks[bi].dead = true;  // the old block stays handed out (never reused) and must stay untouched
         check_block_new(mp, p, n, "Realloc");
         mp.chunks[0].size += na; mp.last = p; mp.last_aligned = na;
